@@ -177,19 +177,20 @@ type Run struct {
 	calls    []*call
 	inflight int64
 
-	ch        uintptr            // the Send's status channel
-	inst      map[uintptr][2]int // linkedNode -> (p,k)
-	assigned  map[int]bool
-	evid      map[*eventlogger.Event]int
-	hits      int
-	cancel    context.CancelFunc
-	cancelled atomic.Bool
-	release   chan struct{}
-	rng       *rand.Rand
-	rngMu     sync.Mutex
-	foreign   []string
-	nodes     map[string]*hnode
-	points    map[string]int
+	ch           uintptr            // the Send's status channel
+	inst         map[uintptr][2]int // linkedNode -> (p,k)
+	assigned     map[int]bool
+	evid         map[*eventlogger.Event]int
+	hits         int
+	cancel       context.CancelFunc
+	cancelled    atomic.Bool
+	release      chan struct{}
+	rng          *rand.Rand
+	rngMu        sync.Mutex
+	foreign      []string
+	inconclusive bool // the oracle's search was cut off: this execution is not judged
+	nodes        map[string]*hnode
+	points       map[string]int
 }
 
 func (r *Run) maybeHold() {
@@ -417,13 +418,14 @@ func (r *Run) recvEvent(s interface{}) Event {
 
 // Result of one scenario.
 type Result struct {
-	ID        int                    `json:"id"`
-	Cfg       map[string]interface{} `json:"cfg"`
-	Logs      map[string][]Event     `json:"logs"`
-	Returned  bool                   `json:"-"`
-	Failures  []Failure              `json:"-"`
-	Points    map[string]int         `json:"-"`
-	Cancelled bool                   `json:"-"`
+	ID           int                    `json:"id"`
+	Cfg          map[string]interface{} `json:"cfg"`
+	Logs         map[string][]Event     `json:"logs"`
+	Returned     bool                   `json:"-"`
+	Failures     []Failure              `json:"-"`
+	Points       map[string]int         `json:"-"`
+	Cancelled    bool                   `json:"-"`
+	Inconclusive bool                   `json:"-"`
 }
 
 // Failure is an oracle failure: Prop is the property it belongs to.
@@ -599,6 +601,7 @@ func Execute(sc *Scenario) *Result {
 	}
 	if res.Returned && sr.pan == nil {
 		r.oracles(sr.st, sr.err, payload, stopped, fail)
+		res.Inconclusive = r.inconclusive
 	}
 	if res.Returned {
 		// aftermath: a finished Send (cancelled or not) holds nothing: the thresholds of its type can be set again
@@ -678,7 +681,53 @@ func (r *Run) oracles(st eventlogger.Status, serr error, payload interface{}, st
 		fails []Failure
 		ends  []trav
 	}
+	// what the Status says (C02), compared with the ends of the traversals of every candidate assignment
+	gotC, gotS, gotW := map[string]int{}, map[string]int{}, map[string]int{}
+	for _, id := range st.Complete() {
+		gotC[string(id)]++
+	}
+	for _, id := range st.CompleteSinks() {
+		gotS[string(id)]++
+	}
+	for _, w := range st.Warnings {
+		var ne *NodeErr
+		if errors.As(w, &ne) {
+			gotW[ne.ID]++
+		} else {
+			fail("C02", "warning %q is not an error returned by a node during this Send", w)
+		}
+	}
+	statusFails := func(ends []trav) []Failure {
+		var fs []Failure
+		wantC, wantW := map[string]int{}, map[string]int{}
+		for _, e := range ends {
+			kind, id, _ := strings.Cut(e.ended, ":")
+			if kind == "complete" {
+				wantC[id]++
+			} else {
+				wantW[id]++
+			}
+		}
+		sub := func(name string, got, want map[string]int) {
+			for id, n := range got {
+				if n > want[id] {
+					fs = append(fs, Failure{"C02", fmt.Sprintf("%s reports %s %d time(s) but only %d traversal(s) ended that way", name, id, n, want[id])})
+				}
+			}
+			if !cancelled {
+				for id, n := range want {
+					if got[id] != n {
+						fs = append(fs, Failure{"C02", fmt.Sprintf("%s reports %s %d time(s), %d traversal(s) ended that way (context not cancelled)", name, id, got[id], n)})
+					}
+				}
+			}
+		}
+		sub("Complete", gotC, wantC)
+		sub("Warnings", gotW, wantW)
+		return fs
+	}
 	var best *result
+	exhausted := false // the search gave up before it had seen every assignment
 	used := map[*call]bool{}
 	var curFails []Failure
 	var curEnds []trav
@@ -691,13 +740,17 @@ func (r *Run) oracles(st eventlogger.Status, serr error, payload interface{}, st
 				fs = append(fs, Failure{Prop: "C01", What: fmt.Sprintf("node %s was invoked outside any traversal of a pipeline registered for %s (invoked twice, after its predecessor dropped/failed, with the wrong event, or for a foreign pipeline)", c.Node.spec.ID, sc.SendType)})
 			}
 		}
+		fs = append(fs, statusFails(curEnds)...)
 		if best == nil || len(fs) < len(best.fails) {
 			best = &result{fails: fs, ends: append([]trav{}, curEnds...)}
 		}
 	}
 	rec = func(pi, k int, prev *call) {
 		nodes++
-		if best != nil && (len(best.fails) == 0 || len(curFails) >= len(best.fails) || nodes > 200000) {
+		if nodes > 3000000 {
+			exhausted = true
+		}
+		if best != nil && (len(best.fails) == 0 || len(curFails) >= len(best.fails) || exhausted) {
 			return
 		}
 		if pi == len(sc.Pipes) {
@@ -769,58 +822,20 @@ func (r *Run) oracles(st eventlogger.Status, serr error, payload interface{}, st
 		}
 	}
 	rec(0, 0, nil)
-	var ends []trav
+	if best != nil && len(best.fails) > 0 && exhausted {
+		// many interchangeable calls (one pass-through node listed several times): the assignment search was cut off
+		// before it had tried everything, so "no assignment explains the calls" is not established: no verdict here
+		r.inconclusive = true
+		best = nil
+	}
 	if best != nil {
-		ends = best.ends
 		for _, f := range best.fails {
 			fail(f.Prop, "%s", f.What)
 		}
 	}
-
-	// ---- C02: the Status accounts for what the traversals did
-	wantC, wantS, wantW := map[string]int{}, map[string]int{}, map[string]int{}
-	for _, e := range ends {
-		kind, id, _ := strings.Cut(e.ended, ":")
-		if kind == "complete" {
-			wantC[id]++
-			if e.sinkEnd {
-				wantS[id]++
-			}
-		} else {
-			wantW[id]++
-		}
+	if r.inconclusive {
+		return
 	}
-	gotC, gotS, gotW := map[string]int{}, map[string]int{}, map[string]int{}
-	for _, id := range st.Complete() {
-		gotC[string(id)]++
-	}
-	for _, id := range st.CompleteSinks() {
-		gotS[string(id)]++
-	}
-	for _, w := range st.Warnings {
-		var ne *NodeErr
-		if errors.As(w, &ne) {
-			gotW[ne.ID]++
-		} else {
-			fail("C02", "warning %q is not an error returned by a node during this Send", w)
-		}
-	}
-	sub := func(name string, got, want map[string]int) {
-		for id, n := range got {
-			if n > want[id] {
-				fail("C02", "%s reports %s %d time(s) but only %d traversal(s) ended that way", name, id, n, want[id])
-			}
-		}
-		if !cancelled {
-			for id, n := range want {
-				if got[id] != n {
-					fail("C02", "%s reports %s %d time(s), %d traversal(s) ended that way (context not cancelled)", name, id, got[id], n)
-				}
-			}
-		}
-	}
-	sub("Complete", gotC, wantC)
-	sub("Warnings", gotW, wantW)
 	// complete-sinks is exactly the sink members of complete
 	for id, n := range gotS {
 		if n > gotC[id] || r.nodes[id] == nil || r.nodes[id].spec.Kind != "sink" {
